@@ -33,3 +33,9 @@ Example types_hold_somewhere :
   describe [(lit "S", DOther 1)] = None.
 Proof. exact types_nonvacuous. Qed.
 Print Assumptions types_hold_somewhere.
+
+(* sf_meta, the function all theorems above speak about, is what types.py's dict + if/elif chain compute: both are held as data
+   (table, meta_rules) that generated theorems (table_matches_source, meta_rules_match_source) compare with the source on every run *)
+Theorem sf_meta_by_rules : forall t, sf_meta_rules t = sf_meta t.
+Proof. exact sf_meta_by_rules_l. Qed.
+Print Assumptions sf_meta_by_rules.
